@@ -45,6 +45,11 @@ func buildHello(id tls.ClientHelloID, sni string) (raw []byte, err error) {
 		u := tls.UClient(nil, &tls.Config{ServerName: sni}, id)
 		if err = u.BuildHandshakeState(); err == nil {
 			raw = append([]byte{}, u.HandshakeState.Hello.Raw...)
+			if len(raw) == 0 { // HelloGolang: the hello is built but not marshaled yet
+				if b, merr := u.HandshakeState.Hello.Marshal(); merr == nil {
+					raw = append([]byte{}, b...)
+				}
+			}
 		}
 	})
 	if pn {
